@@ -281,7 +281,8 @@ type Handle struct {
 	yieldAfter bool
 	// front, when set, is the Storage value handed to the library instead of
 	// the handle itself (see frontStorage)
-	front kvql.Storage
+	front   kvql.Storage
+	stepCap int
 }
 
 func (h *Handle) after() {
@@ -291,7 +292,8 @@ func (h *Handle) after() {
 }
 
 func NewHandle(core *Core, client int, faults []Fault, lazy bool, runTag string) *Handle {
-	return &Handle{core: core, client: client, faults: faults, lazySnap: lazy, runTag: runTag, poll: -1}
+	// the cap on storage calls scales with the store (a statement list makes a few passes over it at most)
+	return &Handle{core: core, client: client, faults: faults, lazySnap: lazy, runTag: runTag, poll: -1, stepCap: stepCap + 12*len(core.snapshot())}
 }
 
 var _ kvql.Storage = (*Handle)(nil)
@@ -303,7 +305,7 @@ func (h *Handle) begin(op string) (*Event, *Fault) {
 		h.yield(h.client)
 	}
 	seq := len(h.log)
-	if seq >= stepCap {
+	if seq >= h.stepCap {
 		panic(stepCapPanic{})
 	}
 	h.log = append(h.log, Event{Seq: seq, Stmt: h.stmt, Poll: h.poll, Op: op})
